@@ -215,6 +215,25 @@ class Executor(ExprMixin, StmtMixin, CallMixin, ContractMixin):
             if 'self' in st.env and not is_init:
                 for cl in self.classes.invariants(st.env['self'].ty.cls):
                     st.assume(self.eval_contract_expr(st, cl.expr))
+            # behavioural subtyping: an overriding method may not demand more than the method it
+            # overrides (callers that dispatch dynamically only establish the overridden contract)
+            base_c = None
+            if fs.cls is not None:
+                for q_ in self.classes.mro(fs.cls)[1:]:
+                    base_c = api.REGISTRY.get(q_ + '.' + fs.node.name)
+                    if base_c is not None:
+                        break
+            if base_c is not None and not is_init and set(base_c.params) == set(c.params):
+                sb = st.copy()
+                for cl in base_c.requires:
+                    sb.assume(self.eval_contract_expr(sb, cl.expr))
+                have = {cl.expr for cl in base_c.requires}
+                for cl in c.requires:
+                    if cl.expr not in have:
+                        self.oblige(sb.copy(), self.eval_contract_expr(sb, cl.expr), 'subtype', 'pre:' + cl.label,
+                                    carries=cl.carries, node=fs.node,
+                                    info={'claim': 'precondition not stronger than that of the overridden %s: %s'
+                                          % (base_c.qualname, cl.expr)})
             for cl in c.requires:
                 st.assume(self.eval_contract_expr(st, cl.expr))
             if not self.feasible(st):
@@ -330,7 +349,7 @@ class Executor(ExprMixin, StmtMixin, CallMixin, ContractMixin):
                     self.exists_witness = None
                     self.oblige(st, z3.Not(t), 'post', 'no-raise:' + r.label, carries=r.carries, node=node,
                                 info={'claim': 'returns normally only if not (%s)' % r.when})
-            for cl in c.ensures:
+            for cl in list(c.ensures) + list(c.static_ensures):
                 self.set_witness(st, cl.witness)
                 t = self.eval_contract_expr(st, cl.expr, None, self.pre_state, use_env=env)
                 self.exists_witness = None
